@@ -87,6 +87,15 @@ impl CommandState {
 		#[cfg(test)]
 		let child = super::TestChild::new(command)?;
 
+		#[cfg(all(watchexec_verif, not(test)))]
+		if let Some(res) = crate::verif::interpose_spawn(&command, &mut spawnable) {
+			*self = Self::Running {
+				child: res?,
+				started: Instant::now(),
+			};
+			return Ok(true);
+		}
+
 		#[cfg(not(test))]
 		let child = spawnable.spawn()?;
 
